@@ -5,8 +5,8 @@
    (C07_one_draw); (c) name -> family dispatch (regenerated from get_distribution on every run) and
    parameter order.  That scipy's rvs follows the law it is given is an oracle (statistical backstop in
    the thorough tier); the statistical statement itself is not a theorem. *)
-From Coq Require Import List ZArith QArith Bool String.
-From GBS Require Import Model.PyStr Model.DistFam Model.Dist Src.SrcDist Proofs.DistP.
+From Coq Require Import List ZArith QArith Bool String Qabs.
+From GBS Require Import Model.PyStr Model.DistFam Model.Dist Src.SrcDist Proofs.DistP Src.SrcDistLaw Proofs.DistLawSrcP.
 Import ListNotations.
 Open Scope Q_scope.
 
@@ -38,6 +38,18 @@ Proof.
   apply Qeq_bool_iff in E. contradiction.
 Qed.
 Print Assumptions C09_params.
+
+(* tie T: the Schulz-Zimm shape parameter REGENERATED from SchulzZimm.__init__ is the one of the parameter plumbing above; draw_mw of every
+   class is checked by the translator to be ONE call of rvs with the object's own parameters and the caller's generator (Src/SrcDistLaw.v) *)
+Theorem C09_schulz_zimm_shape_is_source : forall Mw Mn,
+  plumb FSchulzZimm [Mw; Mn] = if Qeq_bool (Mw - Mn) 0 then LBad else LSchulzZimm (sz_shape Mw Mn) Mn.
+Proof. exact sz_shape_is_source. Qed.
+Print Assumptions C09_schulz_zimm_shape_is_source.
+
+Theorem C09_gauss_shortcut_is_source : forall mu sigma mw,
+  gauss_shortcut mu sigma mw = true -> (sigma < 1 # 1000000 /\ Qabs (mu - mw) < 1 # 1000000)%Q.
+Proof. exact gauss_shortcut_sound. Qed.
+Print Assumptions C09_gauss_shortcut_is_source.
 
 Example C09_example : stop_index [28; 56; 84; 112] 60 = Some 3%nat.
 Proof. reflexivity. Qed.
